@@ -621,7 +621,7 @@ pub fn simulate_entry_end(mut cursor: u64, entry_len: u64) -> u64 {
 /// Smallest payload length of the *first* record of an entry such that the entry ends at or just
 /// after the global offset `target` (`fixed` = entry bytes excluding that payload).
 fn aim_len(cursor: u64, fixed: u64, target: u64) -> u32 {
-    let (mut lo, mut hi) = (0u64, 400_000u64);
+    let (mut lo, mut hi) = (0u64, 400_000u64 * crate::util::len_scale() as u64);
     if simulate_entry_end(cursor, fixed) >= target {
         return 0;
     }
@@ -724,9 +724,9 @@ pub fn resolve(op: &SOp, ctx: &ResolveCtx) -> COp {
                     LenSel::Tiny(frac) => 1 + pick(*frac, 16) as u32,
                     LenSel::Small(frac) => 17 + pick(*frac, 284) as u32,
                     LenSel::Medium(frac) => 1 + pick(*frac, 8 * 1024) as u32,
-                    LenSel::Blockish(frac) => 20_000 + pick(*frac, 25_000) as u32,
-                    LenSel::Fileish(frac) => 60_000 + pick(*frac, 90_000) as u32,
-                    LenSel::Huge(frac) => 280_000 + pick(*frac, 40_000) as u32,
+                    LenSel::Blockish(frac) => (20_000 + pick(*frac, 25_000) as u32) * crate::util::len_scale(),
+                    LenSel::Fileish(frac) => (60_000 + pick(*frac, 90_000) as u32) * crate::util::len_scale(),
+                    LenSel::Huge(frac) => (280_000 + pick(*frac, 40_000) as u32) * crate::util::len_scale(),
                     LenSel::ItemAligned(big) => {
                         if *big {
                             32_749
